@@ -329,7 +329,7 @@ def make_root(path: str, token: str) -> None:
             os.chmod(os.path.join(dp, f), 0o644)
 
 
-def execute(env: Env, r: Run, tag: str, token: str) -> Obs:
+def execute(env: Env, r: Run, tag: str, token: str, kind: str = "unrelated") -> Obs:
     o = Obs()
     t0 = time.monotonic()
     wd = env.scratch.sub(tag)
@@ -344,8 +344,19 @@ def execute(env: Env, r: Run, tag: str, token: str) -> Obs:
     inject = None
     if r.fault and not r.fault.startswith("unknown-"):
         inject = "%s:error=EPERM:when=1" % r.fault
+    # where the daemon is started from: an unrelated directory, a sibling whose name merely starts
+    # with the root's name, a directory inside the root, the root itself -- all must end inside the root
+    start_cwd = env.start_cwd
+    if kind == "prefix-sibling":
+        start_cwd = root + "-staging"
+        os.makedirs(start_cwd, exist_ok=True)
+        os.chmod(start_cwd, 0o755)
+    elif kind == "inside-root":
+        start_cwd = os.path.join(root, "sub")
+    elif kind == "root-itself":
+        start_cwd = root
     sp = spdriver.ServerProcess(over, root=root, servertype=r.servertype, tls=r.tls,
-                                strace_expr=TRACE_EXPR, inject=inject, cwd=env.start_cwd,
+                                strace_expr=TRACE_EXPR, inject=inject, cwd=start_cwd,
                                 workdir=wd, name="srv",
                                 popen_kwargs={"extra_groups": env.start_groups})
     try:
@@ -762,6 +773,18 @@ def main() -> int:
             i, r = item
             token = "tok%d-%06x" % (i, chk.subrng("token", i).getrandbits(24))
             last = None
+            # a chrooting start-up is additionally tried from every kind of start directory
+            kinds = ["unrelated"]
+            if mode == "strace" and r.chroot and r.fault is None:
+                kinds = ["prefix-sibling", "inside-root", "root-itself", "unrelated"]
+            for k in kinds[:-1]:
+                o = execute(env, r, "run%03d-%s" % (i, k), token, kind=k)
+                wit, inc = judge(env, r, o, token)
+                if wit:
+                    for w in wit:
+                        if isinstance(w, tuple) and len(w) > 1 and isinstance(w[1], dict):
+                            w[1]["started_from"] = k
+                    return (r, o, wit, inc, 0)
             for attempt in range(2):
                 if mode == "strace":
                     o = execute(env, r, "run%03d-%d" % (i, attempt), token)
